@@ -123,6 +123,9 @@ def r2(ctx):
     if s is None:
         return None
     body = s.body
+    for l_ in for_loops(s):
+        require_no_break(ctx, R, s, l_, SANE, sh(norm(l_['source']), 60) if l_['source'] is not None else 'colours / pieces',
+                         'the checks in its body are skipped for the remaining colours / pieces')
     rets = [st for st in s.stores if st.get('local') and st['target'] == ('ref', ('l', 0), ())]
     found = {}
     nfalse = 0
